@@ -2,6 +2,6 @@ def meshBounds (maxima : Int) (midpoints : Int) (max_shifts : Rat) : Int × Int 
   let shifts : Int := (maxima - midpoints)
   let shiftl : Rat := ((((-shifts) : Int) : Rat) - max_shifts)
   let shiftr : Rat := ((((-shifts) : Int) : Rat) + max_shifts)
-  let lo : Int := (Py.round ((Py.rmax shiftl (-1 : Rat)) * (20 : Rat)))
-  let hi : Int := (Py.round ((Py.rmin shiftr (1 : Rat)) * (20 : Rat)))
+  let lo : Int := (Py.ceil ((Py.rmax shiftl (-1 : Rat)) * (20 : Rat)))
+  let hi : Int := (Py.floor ((Py.rmin shiftr (1 : Rat)) * (20 : Rat)))
   (lo, hi)
